@@ -3,6 +3,7 @@ from ..defuse import du_of, walk, peel, callee_name, fmt
 from ..callgraph import cg_of
 from ..cfg import cfg_of
 from ..conds import lits_of
+from ..roles import roles_of
 from ..common import arg_term, contains_call, call_named, field_path, ADAPTER_TRAIT
 from .. import tables
 
@@ -51,6 +52,7 @@ def byte_consts_compared(body):
 
 
 def run(facts, res):
+    R = roles_of(facts)
     res.rule("K1", "the pack re-indexer is JSON-string-aware: comparing pack bytes with '{' and '}' implies comparing with '\"' and '\\\\'")
     res.rule("K2", "block and pack writer/reader tables agree (keys, arities, positions, offsets, storage key function)")
 
@@ -91,7 +93,7 @@ def run(facts, res):
 
     # ------------------------------------------------------------------ K2a keys
     w = facts.body("melda::Delta::to_json")
-    r = facts.body("melda::Melda::load_raw_delta")
+    r = R.body("loader")
     if w is None or r is None:
         res.floor("K2", "Delta::to_json / block loader anchors", 0, 2)
         return
@@ -256,9 +258,9 @@ def run(facts, res):
 
     # ------------------------------------------------------------------ K2f storage key
     c = facts.body("melda::Melda::commit")
-    fch = facts.body("melda::Melda::fetch_raw_delta")
+    fch = R.body("fetcher")
     n = 0
-    for body, fn in ((c, "write_raw_item"), (fch, "read_raw_item")):
+    for body, fn in ((c, R.name("raw_write")), (fch, R.name("raw_read"))):
         if body is None:
             continue
         for bi, t in body.calls():
